@@ -819,6 +819,16 @@ private:"""),
     convex(convexity::yes);"""),
     dict(property="C20", name="histogram-ctor-does-not-sort-thresholds", rule="R-C20-5", file="include/nano/core/histogram.h", tu="src/core/histogram.cpp",
          old="        std::sort(std::begin(m_thresholds), std::end(m_thresholds));\n\n        update(begin, end);", new="        update(begin, end);"),
+    dict(property="C08", name="onehot-fills-zero", rule="R-C08-4", file="include/nano/generator/elemwise.h", tu="src/generator/elemwise_identity.cpp",
+         old="                        segment.setConstant(-1.0);", new="                        segment.setConstant(0.0);"),
+    dict(property="C08", name="onehot-guard-inclusive", rule="R-C08-4", file="include/nano/generator/elemwise.h", tu="src/generator/elemwise_identity.cpp",
+         old="                        if (class_index < segment.size())", new="                        if (class_index <= segment.size())"),
+    dict(property="C08", name="targets-mclass-not-centred", rule="R-C08-4", file="src/dataset.cpp",
+         old="storage.array(index) = hits.array().template cast<scalar_t>() * 2.0 - 1.0;", new="storage.array(index) = hits.array().template cast<scalar_t>() * 2.0;"),
+    dict(property="C08", name="update-second-pass-sclass-columns", rule="R-C08-7", file="src/dataset.cpp",
+         old="            case feature_type::sclass: columns = feature.classes() - 1; break;", new="            case feature_type::sclass: columns = feature.classes(); break;"),
+    dict(property="C08", name="sclass-identity-colsize", rule="R-C08-7", file="include/nano/generator/elemwise_identity.h", tu="src/generator/elemwise_identity.cpp",
+         old="        const auto colsize = mapped_classes(ifeature) - 1;", new="        const auto colsize = mapped_classes(ifeature);"),
     # ---- C10
     dict(property="C10", name="accumulator-r1-sign", rule="R-C10-1", file="include/nano/wlearner/accumulator.h", tu="src/wlearner/accumulator.cpp",
          old="        r1(bin) -= vgrad;", new="        r1(bin) += vgrad;"),
